@@ -7,7 +7,8 @@ Every seeded regression under /verif/seeded/<id>-*/ and every line of /verif/sel
 to a scratch copy of /repo's *current working tree* (outside /repo and /verif, removed afterwards); the checker is run
 on the copy without executing honeytrap and must report a violation from a rule of this property (the expected rule
 when one is recorded).  The behaviour-preserving changes under /verif/benign/<id>/ are applied the same way and the check
-must stay silent on each.  A patch that no longer applies to the current tree, or a mutant that no longer type-checks, is
+must stay silent on each.  The reverse of every `fix:` commit (selftest/revfix/, applied with -R where it still applies)
+re-introduces a defect found on the original tree and must be flagged again.  A patch that no longer applies to the current tree, or a mutant that no longer type-checks, is
 skipped and reported as such.  The result is written into evidence/<id>.json under coverage.selftest; it never changes
 the check's exit status (the verdict on /repo is the checker's alone)."""
 import json, os, re, shutil, subprocess, sys, tempfile
@@ -40,6 +41,10 @@ def variants(pid):
         except Exception:
             pass
         out.append({"name": "seed " + d, "kind": "patch", "patch": patch, "expect": exp})
+    rd = os.path.join(VERIF, "selftest", "revfix")
+    for f in sorted(os.listdir(rd)) if os.path.isdir(rd) else []:
+        if f.startswith(pid + "-") and f.endswith(".diff"):
+            out.append({"name": "reverse of fix " + f[:-5], "kind": "revfix", "patch": os.path.join(rd, f), "expect": []})
     bd = os.path.join(VERIF, "benign", pid)
     for f in sorted(os.listdir(bd)) if os.path.isdir(bd) else []:
         if f.endswith(".diff"):
@@ -64,8 +69,9 @@ def run_variant(pid, v):
         vdir = os.path.join(scratch, "verif")
         os.makedirs(vdir)
         shutil.copy(os.path.join(VERIF, "known_findings.json"), vdir)
-        if v["kind"] in ("patch", "benign"):
-            r = subprocess.run(["git", "apply", "--whitespace=nowarn", v["patch"]], cwd=repo, capture_output=True, text=True)
+        if v["kind"] in ("patch", "benign", "revfix"):
+            cmd = ["git", "apply", "--whitespace=nowarn"] + (["-R"] if v["kind"] == "revfix" else []) + [v["patch"]]
+            r = subprocess.run(cmd, cwd=repo, capture_output=True, text=True)
             if r.returncode != 0:
                 return dict(v, result="skipped", why="patch does not apply to the current tree")
         else:
